@@ -223,6 +223,7 @@ R["ibldsp.voltage.detect_bad_channels_cbin"] = [
 # ------------------------------------------------------------------------------------------------ waveform_extraction
 R["ibldsp.waveform_extraction._make_wfs_table"] = [
     ("V__ = (spike_samples > A__) & B__", {"V__": "allowed_idx"}),
+    ("V__ = numpy.logical_and(spike_samples > A__, B__)", {"V__": "allowed_idx"}),  # `&` of two comparisons is normalised to logical_and
     ("V__ = numpy.random.default_rng(seed=seed)", {"V__": "rng"}),
     ("V__ = numpy.unique(spike_clusters)", {"V__": "unit_ids"}),
     ("V__ = unit_ids.shape[0]", {"V__": "nu"}),
